@@ -140,6 +140,9 @@ type env struct {
 	cf     *vh.CaseFile
 	ncert  int
 	maxcrt int
+	certBuf  []string
+	certRp   []replay
+	certFile int
 	coqMax int // largest bit size sent to the Coq model
 }
 
@@ -386,23 +389,47 @@ func (e *env) monitorInDomain(rp replay, f *big.Rat, k uint, T *big.Int, ec int)
 	return tbl
 }
 
+// Certificates are batched (loading Interval costs ~2 s per coqc process):
+// each lemma is followed by a marker; coqc stops at the first lemma that
+// `interval` cannot prove, so the first missing marker names the rejected
+// certificate (the later ones of that batch stay unchecked and are reported
+// as such).
+const certBatch = 6
+
 func (e *env) writeCert(rp replay, f *big.Rat, k uint, pool uint64, T *big.Int, prec int) {
-	name := fmt.Sprintf("cert_%d", e.ncert)
-	e.ncert++
 	fn, fd := f.Num(), f.Denom()
 	a := new(big.Int).Sub(fd, fn)
 	var sb strings.Builder
-	sb.WriteString("From Coq Require Import Reals ZArith Lia.\nFrom Interval Require Import Tactic.\nFrom V Require Import C37.Spec C37.RealProofs.\nLocal Open Scope R_scope.\n")
-	fmt.Fprintf(&sb, "Lemma cert : thr %d (ratR %s %s) (sigma_of %d %d) = %s%%Z.\nProof.\n", k, fn, fd, rp.Pool, rp.Total, T)
+	i := len(e.certBuf)
+	fmt.Fprintf(&sb, "Lemma cert%d : thr %d (ratR %s %s) (sigma_of %d %d) = %s%%Z.\nProof.\n", i, k, fn, fd, rp.Pool, rp.Total, T)
 	fmt.Fprintf(&sb, "  apply (thr_certificate %d %s %s %s %s %d %d %d %s);\n    [vm_compute; reflexivity|lia|reflexivity|lia|lia|reflexivity|].\n", k, pow2(k), fn, fd, a, rp.Pool, rp.Total, pool, T)
-	fmt.Fprintf(&sb, "  split; interval with (i_prec %d).\nQed.\nGoal True. idtac \"cert_ok\". Abort.\n", prec)
-	if err := os.WriteFile(filepath.Join(e.c.Out, name+".v"), []byte(sb.String()), 0o644); err != nil {
+	fmt.Fprintf(&sb, "  split; interval with (i_prec %d).\nQed.\nGoal True. idtac \"cert_ok_%d\". Abort.\n", prec, i)
+	e.certBuf = append(e.certBuf, sb.String())
+	e.certRp = append(e.certRp, rp)
+	e.ncert++
+	e.c.Res.CoqCases++
+	e.c.Res.Distribution["certificate"]++
+	if len(e.certBuf) >= certBatch {
+		e.flushCerts()
+	}
+}
+
+func (e *env) flushCerts() {
+	if len(e.certBuf) == 0 {
+		return
+	}
+	name := fmt.Sprintf("cert_%d", e.certFile)
+	e.certFile++
+	src := "From Coq Require Import Reals ZArith Lia.\nFrom Interval Require Import Tactic.\nFrom V Require Import C37.Spec C37.RealProofs.\nLocal Open Scope R_scope.\n" + strings.Join(e.certBuf, "")
+	if err := os.WriteFile(filepath.Join(e.c.Out, name+".v"), []byte(src), 0o644); err != nil {
 		panic(err)
 	}
 	e.c.Res.CaseFiles = append(e.c.Res.CaseFiles, name)
-	e.c.Res.CaseIndex[name] = rp
-	e.c.Res.CoqCases++
-	e.c.Res.Distribution["certificate"]++
+	for i, rp := range e.certRp {
+		e.c.Res.CaseIndex[fmt.Sprintf("%s#%d", name, i)] = rp
+	}
+	e.c.Res.CaseIndex[name+"#n"] = len(e.certRp)
+	e.certBuf, e.certRp = nil, nil
 }
 
 // ---------------------------------------------------------------------------
@@ -710,7 +737,7 @@ func run(c *vh.Ctx) error {
 		"error classes are recognised by a substring of the error text (mode / domain / escalation cap)",
 	}
 	c.Res.Distribution = map[string]int{}
-	e := &env{c: c, maxcrt: c.Pick(36, 400), coqMax: c.Pick(2200, 20000)}
+	e := &env{c: c, maxcrt: c.Pick(36, 240), coqMax: c.Pick(2200, 20000)}
 	e.cf = c.NewCaseFile("c37", header)
 	e.cf.SetShardSize(c.Pick(30, 40))
 	if c.Replay != "" {
@@ -727,6 +754,7 @@ func run(c *vh.Ctx) error {
 		e.maxcrt = 1
 		e.dispatch(rp.Replay)
 		e.cf.Flush()
+		e.flushCerts()
 		return nil
 	}
 	r := c.Rng
@@ -741,8 +769,8 @@ func run(c *vh.Ctx) error {
 		e.evalThreshold(thrInput("corpus-exact-huge", mode, 1, 2, new(big.Int).Sub(d, one), d))
 		e.evalThreshold(thrInput("corpus-cap", mode, 9, 7, big.NewInt(1), big.NewInt(20)))
 		e.evalThreshold(thrInput("corpus-tiny", mode, 1, ^uint64(0), big.NewInt(1), big.NewInt(20)))
-		// (1-f)^sigma = 2^-800 < 2^-(576+128): round-to-nearest of 1-hi gives exactly 1
-		d2 := pow2(1200)
+		// (1-f)^sigma = 2^-(1201*2/3) (irrational) < 2^-(576+128): round-to-nearest of 1-hi gives exactly 1
+		d2 := pow2(1201)
 		e.evalThreshold(thrInput("corpus-vanishing-power", mode, 2, 3, new(big.Int).Sub(d2, one), d2))
 	}
 	// ---- guards ---------------------------------------------------------------
@@ -761,7 +789,7 @@ func run(c *vh.Ctx) error {
 		e.evalThreshold(thrInput("guard", mode, 0, 5, big.NewInt(1), big.NewInt(2)))
 	}
 	// ---- random thresholds ------------------------------------------------------
-	nT := c.Pick(60, 900)
+	nT := c.Pick(60, 400)
 	for i := 0; i < nT; i++ {
 		mode := r.Intn(2)
 		pool, total := genStakes(r)
@@ -774,7 +802,7 @@ func run(c *vh.Ctx) error {
 		e.evalThreshold(thrInput(class, mode, pool, total, fn, fd))
 	}
 	// ---- exact-rational cutoffs -------------------------------------------------
-	nE := c.Pick(14, 150)
+	nE := c.Pick(14, 60)
 	for i := 0; i < nE; i++ {
 		mode := r.Intn(2)
 		m := 1 + r.Intn(6)
@@ -804,7 +832,7 @@ func run(c *vh.Ctx) error {
 		}
 	}
 	// ---- monotonicity pairs --------------------------------------------------------
-	nM := c.Pick(20, 300)
+	nM := c.Pick(20, 100)
 	for i := 0; i < nM; i++ {
 		mode := r.Intn(2)
 		pool, total := genStakes(r)
@@ -842,7 +870,7 @@ func run(c *vh.Ctx) error {
 			rootCase("edge", big.NewInt(n), k)
 		}
 	}
-	nR := c.Pick(40, 500)
+	nR := c.Pick(25, 120)
 	for i := 0; i < nR; i++ {
 		k := int64(2 + r.Intn(7))
 		if r.Chance(1, 5) {
@@ -863,7 +891,7 @@ func run(c *vh.Ctx) error {
 	rootCase("perfect-huge", new(big.Int).Add(pow2(2000), one), 2)
 	rootCase("perfect-huge", new(big.Int).Exp(big.NewInt(3), big.NewInt(900), nil), 3)
 	// ---- exact fast path, unit level ---------------------------------------------------
-	nX := c.Pick(25, 300)
+	nX := c.Pick(25, 120)
 	for i := 0; i < nX; i++ {
 		mode := r.Intn(2)
 		m := 1 + r.Intn(7)
@@ -891,7 +919,7 @@ func run(c *vh.Ctx) error {
 	e.evalExact(replay{Kind: "exact", Class: "huge-m", Mode: 0, Pool: 1, Total: ^uint64(0), FN: "1", FD: "2"})
 	e.evalExact(replay{Kind: "exact", Class: "huge-m", Mode: 1, Pool: ^uint64(0) - 1, Total: ^uint64(0), FN: "19", FD: "20"})
 	// ---- escalation / decision at low precision ------------------------------------------
-	nS := c.Pick(40, 500)
+	nS := c.Pick(24, 100)
 	for i := 0; i < nS; i++ {
 		mode := r.Intn(2)
 		pool, total := genStakes(r)
@@ -904,7 +932,7 @@ func run(c *vh.Ctx) error {
 			continue
 		}
 		start := uint(4) << uint(r.Intn(5))
-		cap := start << uint(r.Intn(c.Pick(6, 9)))
+		cap := start << uint(r.Intn(c.Pick(5, 9)))
 		if r.Chance(1, 6) {
 			cap = start >> 1
 		}
@@ -912,7 +940,7 @@ func run(c *vh.Ctx) error {
 			FN: omf.Num().String(), FD: omf.Denom().String(), Start: start, Cap: cap})
 	}
 	// ---- eligibility --------------------------------------------------------------------
-	nB := c.Pick(30, 300)
+	nB := c.Pick(30, 100)
 	for i := 0; i < nB; i++ {
 		mode := r.Intn(2)
 		k, _ := modeBits(mode)
@@ -956,6 +984,7 @@ func run(c *vh.Ctx) error {
 		}
 	}
 	e.cf.Flush()
+	e.flushCerts()
 	c.Res.TracesValidated = c.Res.CoqCases
 	return nil
 }
@@ -976,21 +1005,37 @@ func post(c *vh.Ctx) error {
 	if err != nil {
 		return err
 	}
-	okc := 0
+	okc, total, unchecked := 0, 0, 0
 	for _, fn := range certs {
 		b, _ := os.ReadFile(filepath.Join(c.Out, fn+".out"))
 		s := string(b)
-		if strings.Contains(s, "cert_ok") && !strings.Contains(s, "Error") {
-			okc++
+		n := 0
+		if v, ok := c.Res.CaseIndex[fn+"#n"].(float64); ok {
+			n = int(v)
+		}
+		total += n
+		failed := -1
+		for i := 0; i < n; i++ {
+			if strings.Contains(s, fmt.Sprintf("cert_ok_%d\n", i)) {
+				okc++
+			} else {
+				failed = i
+				break
+			}
+		}
+		if failed < 0 {
 			continue
 		}
+		unchecked += n - failed - 1
 		if len(s) > 500 {
 			s = s[len(s)-500:]
 		}
 		c.Res.Violate("correspondence", "certificate-rejected",
-			"Coq's interval tactic could not prove that the returned threshold is floor(2^k*(1-(1-f)^sigma)) for this input ("+fn+"): "+s, c.Res.CaseIndex[fn])
+			fmt.Sprintf("Coq's interval tactic could not prove that the returned threshold is floor(2^k*(1-(1-f)^sigma)) for this input (%s, lemma cert%d; %d later certificates of the batch unchecked): %s", fn, failed, n-failed-1, s),
+			c.Res.CaseIndex[fmt.Sprintf("%s#%d", fn, failed)])
 	}
-	c.Res.Notes = append(c.Res.Notes, fmt.Sprintf("interval certificates proved: %d of %d", okc, len(certs)))
+	_ = unchecked
+	c.Res.Notes = append(c.Res.Notes, fmt.Sprintf("interval certificates proved: %d of %d", okc, total))
 	return nil
 }
 
